@@ -239,7 +239,9 @@ class Built:
         return [self.listener_cls[lab]() for lab in self.m.listeners]
 
 
-def build(m: M, name="M", strict=False, extra_ns=None, split=None) -> Built:
+def build(m: M, name="M", strict=False, extra_ns=None, split=None, falsy=False) -> Built:
+    """falsy: listener objects and the model are falsy (empty collection-like / __bool__ False):
+    whether an object takes part as a provider must never depend on its truth value."""
     from statemachine import State, StateMachine
     from statemachine.factory import StateMachineMetaclass
 
@@ -324,12 +326,16 @@ def build(m: M, name="M", strict=False, extra_ns=None, split=None) -> Built:
     model_cls = None
     if "model" in per:
         mns = {"_prov": "model", "__init__": _model_init}
+        if falsy:
+            mns["__bool__"] = lambda self: False
         for (n, f) in per["model"]:
             mns[n] = _mk(n, f)
         model_cls = type("Mod", (), mns)
     listener_cls = {}
     for lab in set(p for p in per if p not in ("sm", "model", "fn")) | set(m.listeners):
         lns = {"_prov": lab}
+        if falsy:
+            lns["__len__"] = lambda self: 0
         for (n, f) in per.get(lab, ()):
             lns[n] = _mk(n, f)
         listener_cls[lab] = type(lab, (), lns)
